@@ -95,6 +95,7 @@ BUILDS = {
     'dev_generic': dict(parts=BASE, prelude=P0),
     'dev_eq': dict(parts=['ext', 'vector', 'all_mod'], prelude=P0),
     'dev_x86': dict(parts=BASE + ['sse2_memchr', 'avx2_memchr'], prelude=P0 + ['prelude/x_x86.vrs']),
+    'dev_top': dict(parts=BASE + ['sse2_memchr', 'avx2_memchr', 'all_memchr', 'x86_64_memchr'], prelude=P0),
     'dev_swar': dict(parts=BASE + ['all_memchr'], prelude=P0 + ['prelude/x_swar.vrs']),
     'dev_eqrk': dict(parts=['ext', 'vector', 'all_mod', 'all_rabinkarp'], prelude=P0 + ['prelude/x_eqrk.vrs']),
     'dev_pp': dict(parts=BASE + ['all_mod', 'all_packedpair', 'all_default_rank', 'generic_packedpair',
